@@ -584,6 +584,40 @@ func runC16(c *run.Ctx) {
 				c.Bucket("steering", "extend-implicit-schema")
 			}
 		}
+		if i%6 == 2 {
+			// names that differ only in the case of their letters are different names: a second object / enum / scalar / input
+			// and a second directive spelled like an existing one in the other case
+			seen := map[model.Kind]bool{}
+			for _, t := range append([]*model.TypeDef{}, ms.Types...) {
+				if seen[t.Kind] || t.Name == ms.Query || t.Name == ms.Mutation || t.Name == ms.Subscription || t.Kind == model.Union || t.Kind == model.Interface {
+					continue
+				}
+				alt := strings.ToUpper(t.Name)
+				if alt == t.Name {
+					alt = strings.ToLower(t.Name)
+				}
+				if alt == t.Name || ms.Type(alt) != nil || model.IsBuiltinScalar(alt) {
+					continue
+				}
+				cp := *t
+				cp.Name = alt
+				ms.Types = append(ms.Types, &cp)
+				seen[t.Kind] = true
+			}
+			if len(ms.Dirs) > 0 {
+				cp := *ms.Dirs[0]
+				cp.Name = strings.ToUpper(cp.Name[:1]) + cp.Name[1:]
+				dup := false
+				for _, d := range ms.Dirs {
+					dup = dup || d.Name == cp.Name
+				}
+				if !dup {
+					ms.Dirs = append(ms.Dirs, &cp)
+				}
+			}
+			ms.Reindex()
+			c.Bucket("steering", "names-differing-in-case-only")
+		}
 		illFormed := ""
 		if i%5 == 3 {
 			// an ill-formed set: every arrangement must refuse it (the offending member may sit in an extension of a later load)
